@@ -58,6 +58,15 @@ CLAIMED["C20"] = (
     "DESIGN.md 3.10",
 )
 
+CLAIMED["C17"] = (
+    "cachesim",
+    "deterministic simulation: virtual clock + seeded thread scheduler (shimmed lock, line-level pre-emption inside the cache methods); sequential model per step and Wing-Gong linearizability check of concurrent histories",
+    "exploration",
+    "Sequential tier: seeded histories of get/put/flush/resize/statistics operations and clock advances (landing exactly on expirations and on the cleaning time) against a sequential model, with ring/dict structure, LRU bound, stale-answer and counter invariants after every step. Concurrent tier: 2-4 real threads under the baton scheduler, pre-empted at every lock operation and every source line of the cache methods; every recorded history (<= 18 operations, invoke/return stamped with the simulator's event sequence) must be linearizable w.r.t. the same model.",
+    "Trusted: sequential cache model and Wing-Gong search in checks/c17.py; set_max_size is lazy by design (shrinking is not flagged until the next put); pre-emption granularity is the source line.",
+    "DESIGN.md 3.7",
+)
+
 PENDING_REASON = "check under construction in this session (DESIGN.md section 8 build order); not claimed until its quick command is green on the unchanged tree"
 ALL = [f"C{i:02d}" for i in range(1, 21)]
 
